@@ -143,7 +143,8 @@ func NumberOfInducedPaths(g Graph, maxLength int) []int {
 	if maxLength < 0 || maxLength > n-1 {
 		maxLength = n - 1
 	}
-	r := make([]int, n)
+	//One extra entry so that the paths of length n (there are none) can be counted without a special case.
+	r := make([]int, n+1)
 	type path struct {
 		p                []int
 		length           int
@@ -183,7 +184,7 @@ func NumberOfInducedPaths(g Graph, maxLength int) []int {
 		r[i] /= 2
 	}
 	r[0] = n
-	return r
+	return r[:n]
 }
 
 //NumberOfInducedCycles returns a slice of length n containing the number of induced cycles in g which are of length at most k.
